@@ -6,8 +6,6 @@ coq/theories/C01/Props.v), extracted to an exact-rational oracle.  Tie: the real
 programs of the C01 fragment: same reported instances (probability 0 == unreported),
 |dp| <= 1e-9, same InconsistentEvidence decision.
 """
-import glob
-import json
 import os
 import sys
 
@@ -54,45 +52,13 @@ def _eval_cli(p):
     return cc.impl_cli(p.text())
 
 
-def load_corpus(prop):
-    out = []
-    for path in sorted(glob.glob(os.path.join(vf.CORPUS, prop, "*.json"))):
-        with open(path) as f:
-            d = json.load(f)
-        out.append(gp.Prog.from_json(d) if "stmts" in d else gp.parse_simple(d["text"]))
-    return out
-
-
-def judge(ctx, prog, impl, ref, via, state, impl_fn):
+def judge(ctx, prog, impl, ref, via, state, impl_fn, tol=1e-9):
     """Compare one implementation outcome with the oracle outcome; report violations (shrunk, classified)."""
     if ref[0] == "err" and ref[1] not in ("InconsistentEvidence",):
         ctx.broken.append("oracle:%s on a generated program (%s)" % (ref[1], prog.text().replace("\n", " ")[:200]))
         return
-    k = cc.kind_of(impl, ref)
     ctx.count("outcome:%s/%s" % (ref[0] if ref[0] == "ok" else ref[1], impl[0] if impl[0] == "ok" else impl[1]))
-    if k is None:
-        return
-    klass = cc.classify(prog, impl, ref)
-    n = state.setdefault(("n", klass), 0)
-    state[("n", klass)] = n + 1
-    small, simpl, sref = prog, impl, ref
-    if klass is None or n < 1:
-        fn = cc.impl_quick if (impl[0] == "err" and impl[1] == "Timeout") else impl_fn
-        try:
-            small = cc.shrink_disagreement(ctx, prog, fn, k, max_steps=ctx.n(120, 300))
-            simpl = fn(small.text())
-            sref = cc.one_oracle(ctx, small)
-            if cc.kind_of(simpl, sref) != k:
-                small, simpl, sref = prog, impl, ref
-        except Exception as e:  # shrinking is best effort
-            ctx.notes.append("shrink failed: %r" % (e,))
-            small, simpl, sref = prog, impl, ref
-        klass = cc.classify(small, simpl, sref)
-    what = "%s: %s on program: %s" % (via, so.same(simpl, sref), small.text().replace("\n", " "))
-    ctx.count("violation-class:%s" % klass)
-    ctx.violation(what, {"program": small.to_json(), "via": via, "implementation": simpl,
-                         "semantics": [sref[0], {k2: str(v) for k2, v in sref[1].items()} if sref[0] == "ok" else sref[1]],
-                         "original_program": prog.text()}, klass=klass)
+    cc.report_vs_oracle(ctx, prog, impl, ref, via, state, impl_fn, tol)
 
 
 def run(ctx):
@@ -119,7 +85,7 @@ def run(ctx):
         ctx.case(prog.key(), True, sample={"program": prog.text()})
         judge(ctx, prog, impl, ref, "replay", {}, cc.impl_default)
         return
-    progs = [gp.parse_simple(w) for w in WITNESSES] + load_corpus("C01")
+    progs = [gp.parse_simple(w) for w in WITNESSES] + cc.load_corpus("C01")
     nfixed = len(progs)
     n = ctx.n(150, 6000)
     progs += [gp.gen_program(ctx.rng) for _ in range(n)]
@@ -159,7 +125,7 @@ def run(ctx):
             ctx.notes.append("CLI output not understood: %s" % (im[1],))
             continue
         if cc.kind_of(im, ref[i], cc.CLI_TOL) != cc.kind_of(impl[i], ref[i]):
-            judge(ctx, progs[i], im, ref[i], "command line tool", state, cc.impl_cli)
+            judge(ctx, progs[i], im, ref[i], "command line tool", state, cc.impl_cli, cc.CLI_TOL)
     # the oracle's fast strategy against the specification itself (small instances only: the
     # specification enumerates every ground AD instance and recomputes the model per indicator)
     small = [i for i, (p, nc) in enumerate(zip(progs, nch))
